@@ -53,7 +53,7 @@ def main(tier, seed):
               f"real literals.Obfuscate, e.g. {json.dumps(drift[:3])}", flush=True)
 
     # ---- B2: markers in real builds
-    nseeds = 2 if tier == "quick" else 12
+    nseeds = 2 if tier == "quick" else 6
     sb, runs = whole_tool(chk, tier, table, work / "wt", nseeds, rng_wt)
     visible_ref = hidden_ok = may_remain_found = 0
     for prog, ref, g in runs:
